@@ -34,6 +34,7 @@ type Run struct {
 	SolverKind string
 	FallbackKind string
 	TimeoutMs int
+	FeasTimeoutMs int
 	Log       io.Writer
 	DumpDir   string
 	MapOrder  bool
@@ -182,6 +183,9 @@ func (r *Run) fallback(it *Interp, bad Value, msg, kind string) bool {
 				m[a.Tag] = v
 			}
 		}
+		for k, v := range it.choices {
+			m[k] = v
+		}
 		r.addViolation(&Violation{Harness: r.Harness, Msg: msg, Kind: kind, Model: m, Where: it.where(), Trace: append([]int{}, it.trace...), Params: it.params})
 		panic(&pathEnd{why: "violation"})
 	}
@@ -198,7 +202,7 @@ func NewRun(P *Program, pkgPath, fnName string, params map[string]string) (*Run,
 		return nil, fmt.Errorf("harness %s.%s not found", pkgPath, fnName)
 	}
 	r := &Run{P: P, Harness: fnName, Fn: fn, Params: params, Workers: 16, MaxSteps: 20_000_000, MaxPaths: 200000,
-		SolverKind: "z3-new", FallbackKind: "z3", TimeoutMs: 60000,
+		SolverKind: "z3-new", FallbackKind: "z3", TimeoutMs: 60000, FeasTimeoutMs: 4000,
 		Reach: map[string]map[string]string{}, Notes: map[string]int{}, Queries: map[string]int{}, SolverTime: map[string]time.Duration{},
 		PathEnds: map[string]int{}, Funcs: map[string]string{}}
 	r.cond = sync.NewCond(&r.mu)
@@ -279,7 +283,7 @@ func (r *Run) runPath(s *Solver, prefix []int) {
 	}
 	s.Reset()
 	it := &Interp{P: r.P, R: r, solver: s, prefix: prefix, globals: map[*ssa.Global]*Cell{}, inited: map[*ssa.Package]bool{},
-		tagSeen: map[string]int{}, params: r.Params, mapOrder: r.MapOrder, store: map[string]Value{}, initTouched: map[*Cell]bool{}}
+		tagSeen: map[string]int{}, params: r.Params, mapOrder: r.MapOrder, store: map[string]Value{}, initTouched: map[*Cell]bool{}, choices: map[string]string{}}
 	end := "returned"
 	func() {
 		defer func() {
@@ -297,8 +301,15 @@ func (r *Run) runPath(s *Solver, prefix []int) {
 				case *Unsupported:
 					end = "unsupported"
 					r.mu.Lock()
-					if len(r.Errors) < 20 {
-						r.Errors = append(r.Errors, e.Error()+"\n    "+strings.Join(e.Stack, "\n    "))
+					msg := e.Error() + "\n    " + strings.Join(e.Stack, "\n    ")
+					dup := false
+					for _, x := range r.Errors {
+						if x == msg {
+							dup = true
+						}
+					}
+					if !dup && len(r.Errors) < 8 {
+						r.Errors = append(r.Errors, msg)
 					}
 					r.mu.Unlock()
 				default:
